@@ -15,6 +15,8 @@ def run():
         chk.add_model("BarrierImpl tournament, 5 participants x 2 phases", vlib.model_check("BarrierImpl", "BarrierImpl_5.cfg", timeout=3000))
     r = vlib.model_check("BarrierImpl", "BarrierImpl_dev.cfg", expect_ok=False, timeout=600)
     chk.add_model("BarrierImpl/variant publish_before_completion (must violate)", r, note="violated: %s" % r["violated"])
+    rx = vlib.model_check("BarrierImpl", "BarrierImpl_dev2.cfg", expect_ok=False, timeout=600)
+    chk.add_model("BarrierImpl/variant claim_by_exchange (must violate)", rx, note="violated: %s" % rx["violated"])
     chk.add_model("BarrierDropImpl (tournament arrival + arrive_and_drop / expected_adjustment; 3 participants, one drops)",
                   vlib.model_check("BarrierDropImpl", "BarrierDropImpl.cfg", timeout=900))
     rb = vlib.model_check("BarrierDropImpl", "BarrierDropImpl_dev.cfg", expect_ok=False, timeout=900)
